@@ -42,7 +42,13 @@ func (db *DB) SetMode(m mode.Mode) error {
 	}
 
 	if err != nil {
-		return fmt.Errorf("can't set metabase mode (old=%s, new=%s): %w", db.mode, m, err)
+		err = fmt.Errorf("can't set metabase mode (old=%s, new=%s): %w", db.mode, m, err)
+		// The database is closed by now. Do not keep reporting the old mode
+		// (or the read-only one Open has already stored) with a closed
+		// handle: stay without the database until the next successful switch.
+		db.boltDB = nil
+		db.mode = mode.DegradedReadOnly
+		return err
 	}
 
 	db.mode = m
